@@ -95,7 +95,7 @@ func (g *gen) slimBattery(kind string, n int) {
 		"hasall:0:"+list(all, "0", S(n-1), S(n-1)), "hasall:0:"+list(S(n), all), "hasall:0:.", "hasany:0:"+list(run1(n, n+3), S(n-1), S(n-1)), "hasany:0:.",
 		"slice:0:?", "appendf:0:7,7:?", "addall:0:0", "meets:0:0", "isect:1:0,0", "rm:1:0,0", "has:1:0", "eq:0:1", "sub:1:0", "add:1:0,0",
 		"rmall:1:1", "empty:1", "pop:1:?", "add:1:0", "pop:1:?", "pop:1:?", "rm:0:.", "add:0:.", "pop:0:?", "pop:0:?", "rm:0:"+list(runStep(0, n, 2), "0", "0"), "has:0:0", "len:0", "add:0:"+list("0", "0", S(n)), "len:0",
-		"rm:0:"+list(run1(1, n+5)), "len:0", "pop:0:?", "empty:0", "slice:0:?", "clear:0", "pop:0:?", "keys:0:"+list(runStep(0, n, 2)), "values:1:"+list(runStep(0, n, 4), "0"), "range:1:"+list(runStep(1, n, 4), "1"), "meets:0:1", "len:1"),
+		"rm:0:"+list(run1(1, n+5)), "len:0", "pop:0:?", "empty:0", "slice:0:?", "clear:0", "pop:0:?", "keys:0:"+list(runStep(0, n, 2)), "values:1:"+list(runStep(0, n, 4), "0"), "range:1:"+list(runStep(1, n, 4), "1")+":"+g.seqKind(n), "meets:0:1", "len:1"),
 		"scale-slim-battery", "items-with-repeats", "no-items", "self-application", "zero-value-popped")
 }
 
@@ -125,7 +125,7 @@ func (g *gen) battery(kind string, n int) {
 		"scale-observers", "items-with-repeats", "no-items")
 	// the zero value as a member: removed, asked for, re-added, popped from a singleton
 	g.semit(kind, 2, n, ops("new:0:"+list(all), "rm:0:0", "has:0:0", "len:0", "hasall:0:0", "hasany:0:0", "add:0:0", "has:0:0", "rm:0:0,0,0", "add:0:0,0", "len:0",
-		"new:1:0", "has:1:0", "slice:1:?", "pop:1:?", "len:1", "has:1:0", "pop:1:?", "add:1:0", "has:1:0", "rm:1:0", "empty:1", "range:1:0,0", "pop:1:?", "empty:1",
+		"new:1:0", "has:1:0", "slice:1:?", "pop:1:?", "len:1", "has:1:0", "pop:1:?", "add:1:0", "has:1:0", "rm:1:0", "empty:1", "range:1:0,0:"+g.seqKind(n+1), "pop:1:?", "empty:1",
 		"keys:1:0", "pop:1:?", "values:1:0", "pop:1:?", "len:1", "isect:1:0,0", "has:1:0", "rmall:0:1", "has:0:0"),
 		"scale-zero-value", "zero-value-popped")
 	// self-application
@@ -138,7 +138,7 @@ func (g *gen) battery(kind string, n int) {
 		"rm:0:"+run1(-5, 0), "add:0:"+list("0", "0", S(n), S(n)), "rm:0:"+run1(0, n+5), "len:0", "rm:0:0,0", "add:0:0", "len:0"),
 		"scale-variadic", "items-with-repeats", "no-items")
 	// constructors from sequences with repeats; the argument maps/slices are poisoned afterwards
-	g.semit(kind, 2, n, ops("range:0:"+list(all, all), "keys:1:"+list(all), "eq:0:1", "values:0:"+list(all, run1(0, n/2)), "eq:0:1", "sub:1:0", "new:0:"+list(runStep(0, n, 3), "0", "0"), "sub:0:1", "len:0",
+	g.semit(kind, 2, n, ops("range:0:"+list(all, all)+":"+g.seqKind(n), "keys:1:"+list(all), "eq:0:1", "values:0:"+list(all, run1(0, n/2)), "eq:0:1", "sub:1:0", "new:0:"+list(runStep(0, n, 3), "0", "0"), "sub:0:1", "len:0",
 		"clone:0:1", "eq:0:1", "add:0:"+S(n), "eq:0:1", "sub:1:0", "len:1"),
 		"scale-constructors")
 	// emptied by Remove, cleared: an empty set whose map has been big
@@ -297,7 +297,11 @@ func (g *gen) scaleHistory(kind string, maxN int) {
 		case c < 58:
 			o = append(o, fmt.Sprintf("nil:%d", i))
 		case c < 63:
-			o = append(o, fmt.Sprintf("%s:%d:%s", []string{"new", "range", "keys", "values"}[g.r.Intn(4)], i, rl()))
+			if ctor := []string{"new", "range", "keys", "values"}[g.r.Intn(4)]; ctor == "range" {
+				o = append(o, fmt.Sprintf("range:%d:%s:%s", i, rl(), seqKinds[g.r.Intn(len(seqKinds))])) // round 6: the kind of sequence
+			} else {
+				o = append(o, fmt.Sprintf("%s:%d:%s", ctor, i, rl()))
+			}
 		case c < 67:
 			o = append(o, fmt.Sprintf("clone:%d:%d", i, j))
 		case c < 73:
